@@ -924,7 +924,9 @@ class ArgumentParser(ParserDeprecations, ActionsContainer, ArgumentLinking, argp
             pending: List[Tuple[str, str]] = []
 
             def add_pending(file_path, content):
-                if file_path == path_fc.absolute or any(file_path == p for p, _ in pending):
+                # compared after resolving links and '.', '..', '//' so that the form of the given path does not matter
+                taken = [path_fc.absolute] + [p for p, _ in pending]
+                if any(os.path.realpath(file_path) == os.path.realpath(p) for p in taken):
                     raise ValueError(f"Refusing to save more than one config to the same file: {file_path}")
                 pending.append((file_path, content))
 
